@@ -44,11 +44,14 @@ type threadState struct {
 	pending interface{} // path end raised in a non-main thread, re-raised in main
 	sched   []int
 	wg      sync.WaitGroup
+	// preemption bound: at most maxPre switches away from a thread that could
+	// have continued (-1: unbounded); switches at lock waits and exits are free
+	maxPre, pre int
 }
 
 func (ex *Exec) ts() *threadState {
 	if ex.thr == nil {
-		ex.thr = &threadState{threads: []*thread{{id: 0, resume: make(chan struct{}, 1), started: true}}}
+		ex.thr = &threadState{maxPre: -1, threads: []*thread{{id: 0, resume: make(chan struct{}, 1), started: true}}}
 	}
 	return ex.thr
 }
@@ -190,14 +193,17 @@ func (ex *Exec) gate() {
 	ts := ex.thr
 	me := ts.threads[ts.cur]
 	cands := []int{me.id}
-	for i, o := range ts.threads {
-		if i != me.id && i != 0 && ex.runnable(o) {
-			cands = append(cands, i)
+	if ts.maxPre < 0 || ts.pre < ts.maxPre {
+		for i, o := range ts.threads {
+			if i != me.id && i != 0 && ex.runnable(o) {
+				cands = append(cands, i)
+			}
 		}
 	}
 	next := cands[ex.choose(len(cands))]
 	ts.sched = append(ts.sched, next)
 	if next != me.id {
+		ts.pre++
 		ex.transfer(me, next)
 	}
 }
@@ -284,6 +290,10 @@ func registerThreads(e *Engine) {
 	x["zzsym.Join"] = func(ex *Exec, c *frame, f *ssa.Function, a []Value) Value {
 		ex.curFrame = c
 		ex.join()
+		return nil
+	}
+	x["zzsym.SetPreemptionBound"] = func(ex *Exec, c *frame, f *ssa.Function, a []Value) Value {
+		ex.ts().maxPre = int(a[0].(Int).S64())
 		return nil
 	}
 	x["zzsym.Yield"] = func(ex *Exec, c *frame, f *ssa.Function, a []Value) Value {
